@@ -212,17 +212,17 @@ func c03ready(c *an.Ctx) {
 	ifF := c.P.Field("nsqd", "clientV2", "InFlightCount")
 	chF := c.P.Field("nsqd", "clientV2", "Channel")
 	n := 0
-	for _, r := range an.Returns(fn) {
-		v := an.Resolve(r.Results[0])
+	for _, rc := range returnCases(fn, 0) {
+		r, v := rc.ret, rc.val
 		if k, ok := v.(*ssa.Const); ok && k.Value != nil && k.Value.String() == "false" {
 			continue
 		}
 		n++
 		notPaused, readyPos, below := false, false, false
-		facts := an.FactsAt(r.Block())
+		facts := rc.facts
 		// a returned boolean expression also contributes (return a && b) – treat the returned value itself as a fact
 		if _, isConst := v.(*ssa.Const); !isConst {
-			facts = append(facts, an.Fact{V: v, True: true})
+			facts = append(facts, an.ExpandFact(an.Fact{V: v, True: true})...)
 		}
 		for _, f := range facts {
 			if call, ok := f.V.(*ssa.Call); ok && !f.True && an.IsCallTo(call, isPaused) && isLoadOfField(recvArg(call), chF) {
